@@ -146,7 +146,15 @@ func c03Call1(kind string, in Sx) Sx {
 			c03w = nil
 			return L(S("worker-dead"))
 		}
-		out, err := ParseSx(strings.TrimRight(r.line, "\n"))
+		line := strings.TrimRight(r.line, "\n")
+		if strings.HasSuffix(line, c03RetireMark) {
+			// the case left a goroutine of the code under test behind (blocked in a system call):
+			// the answer is valid, the worker is not reused
+			line = strings.TrimSuffix(line, c03RetireMark)
+			w.kill()
+			c03w = nil
+		}
+		out, err := ParseSx(line)
 		if err != nil {
 			return L(S("worker-bad-reply"))
 		}
@@ -160,6 +168,10 @@ func c03Call1(kind string, in Sx) Sx {
 
 // ---------------------------------------------------------------- child side
 var c03basefd int
+
+const c03RetireMark = "\tretire"
+
+var c03Tainted bool // set by a case after which receiver goroutines are still around
 
 func c03WorkerMain(args []string) {
 	if len(args) != 1 {
@@ -200,8 +212,15 @@ func c03WorkerMain(args []string) {
 			out = L(S("bad-kind"))
 		}
 		wr.WriteString(out.String())
+		if c03Tainted {
+			wr.WriteString(c03RetireMark)
+		}
 		wr.WriteByte('\n')
 		wr.Flush()
+		if c03Tainted {
+			time.Sleep(10 * time.Second) // the parent kills this process
+			return
+		}
 	}
 }
 
